@@ -14,7 +14,7 @@ RULE = {"C19": "four helpers, each driven by random sample sequences under the p
                "timeouts n/1e6 for whole-microsecond n, landings exactly on the timeout).  Non-trivial = sequence with >=2 "
                "state changes / True results / passed low-level records / expiry flips; distinct = hash of the sequence."}
 RULE["C19"] += '  Also: two Toggle / ButtonDebouncer objects on one button sampled in turns, truthy non-bool button levels, cases starting at FPGA time exactly 0.'
-REQUIRED = {"C19": {"toggle-edge-flip": 2000, "toggle-held-no-flip": 2000, "toggle-on-off-pair": 500, "toggle-real-joystick-case": 20, "toggle-two-objects-on-one-button": 100, "clock-starts-at-zero": 30, "debouncer-two-objects-on-one-button": 50, "toggle-nonbool-levels": 50,
+REQUIRED = {"C19": {"toggle-edge-flip": 2000, "toggle-held-no-flip": 2000, "toggle-on-off-pair": 500, "toggle-real-joystick-case": 20, "toggle-two-objects-on-one-button": 100, "filter-record-created-at-another-time": 1000, "clock-starts-at-zero": 30, "debouncer-two-objects-on-one-button": 50, "toggle-nonbool-levels": 50,
                     "toggle-debounce-flip": 300, "toggle-debounce-suppressed-edge": 100,
                     "debouncer-true": 1000, "debouncer-suppressed-press": 1000, "debouncer-required-true": 300, "debouncer-exact-strict": 30,
                     "filter-bypass-pass": 1000, "filter-low-pass": 500, "filter-low-suppressed": 1000, "filter-through-real-logger": 50,
@@ -316,6 +316,12 @@ def run_filter(acc, case):
                 v = len(got) > n0
             else:
                 rec = logging.LogRecord("x", level, "f", 1, "m", (), None)
+                cr = case.get("created")
+                if cr:
+                    # the record was created at another time than it reaches the filter (queued / replayed records): the
+                    # period is measured where the filter sits
+                    rec.created = 1.7e9 + cr[i]
+                    acc.ev("filter-record-created-at-another-time")
                 v = f.filter(rec)
             acc.checks += 1
             if level >= bypass:
@@ -512,7 +518,14 @@ def gen_case(rng, kind):
         for _ in range(rng.choice([30, 100, 300])):
             adv = rng.choice([0.0, 0.015625, 0.125, 0.25, 0.5, 1.0, period, period / 2, period * 2, rng.randrange(0, 256) / 64])
             recs.append([adv, rng.choice([logging.DEBUG, logging.INFO, logging.INFO, logging.WARN, logging.ERROR, 25, 35, logging.CRITICAL])])
-        return {"kind": "filter", "period": period, "bypass": bypass, "records": recs, "real_logger": rng.random() < 0.5}
+        c = {"kind": "filter", "period": period, "bypass": bypass, "records": recs, "real_logger": rng.random() < 0.5}
+        if not c["real_logger"] and rng.random() < 0.5:
+            t_, cr = 0.0, []
+            for _ in recs:
+                t_ += rng.choice([0.0, 0.001, period * 1.5, period * 3, 10.0])
+                cr.append(t_)
+            c["created"] = cr
+        return c
     # watchdog
     t = rng.choice([20000, 5000, 1001, 15724, 1000, rng.randrange(1000, 100000), rng.randrange(1000, 3000000)])
     ops = [["reset"]] if rng.random() < 0.9 else [["isExpired"], ["printIfExpired"], ["enable"]]
